@@ -343,7 +343,7 @@ fn check_map(spec: &Spec, d: i64, map: &HitObjects) -> Option<(String, String)> 
                 if g.new_combo != w.new_combo || g.combo_offset != w.combo_offset {
                     return Some(("new-combo-after-break".into(), format!("object {i} (slider at {}): new_combo {}, expected {}", got.start_time, g.new_combo, w.new_combo)));
                 }
-                if g.path.control_points() != w.path.control_points() || g.repeat_count != w.repeat_count {
+                if !super::gen::same_control_points(g.path.control_points(), w.path.control_points()) || g.repeat_count != w.repeat_count {
                     return Some(("slider-changed".into(), format!("object {i}")));
                 }
             }
